@@ -12,15 +12,25 @@ Per generated case (reads file FASTQ / FASTQ.gz / BAM x haplotag list x ploidy 2
     code (`splitFix`, `histRowsFix`); where they do not, the faithful model of HEAD (`splitCur`, `histRowsCur`) decides
     whether this is the known defect (F7a early exit, F7c duplicated histogram rows) or something else; rejected inputs
     (model: ValueError / KeyError / AssertionError) must be rejected by the CLI with the same exception class.
+  * text level (`c14.run`: `runSplit` = `validate`/output options -> `parseText` on the bytes of the list file -> table ->
+    pass -> `histText`): the list file is written verbatim (line ends, white space, blank lines, extra/short lines, header
+    variants, gz), the output options may be anomalous, outputs may pre-exist; compared: acceptance / exception class / exit
+    status 2, ploidy and requested outputs, written indices, the histogram file byte for byte, column sums = records per
+    output, the option table read off the list lines (`prescribedByList`) = the oracle's;
+  * in-process: `check_haplotag_list_information` + `process_haplotag_list_file` on many more list texts (`c14.list`: parser
+    choice, the dict, `known_reads`, exception class), `_bam_iterator` / `_fastq_string_iterator` lengths (`c14.bamlen`),
+    `initialize_io_files` format decision on files of every kind `detect_file_format` distinguishes (`c14.detect`).
 """
-import collections, concurrent.futures, itertools, json, os, re, shutil
+import collections, concurrent.futures, contextlib, gzip, itertools, json, os, re, shutil
 
 from harness.gen import sim
 from harness.gen import c14_split as G
 
 RULE = ("case = reads file (FASTQ, gzipped FASTQ or BAM; 0-30*scale reads, duplicate names, BAM reads without sequence / "
         "mapped / unmapped) x haplotag list (2 or 4 columns, with or without header, none entries, absent names, rarely "
-        "duplicate names, unknown haplotype names or empty) x ploidy 2-4 x (--output-h1/-h2 | -o...) x --output-untagged x "
+        "duplicate names, unknown haplotype names or empty; 35% written with one of 18 layout perturbations: line ends, white space, "
+        "blank / short / wide lines, header variants; 25% gzipped) x ploidy 2-4 (rarely 1) x (--output-h1/-h2 | -o... | rarely "
+        "anomalous output options) x --output-untagged x pre-existing output files x "
         "--add-untagged x --discard-unknown-reads x --only-largest-block; non-trivial iff the CLI accepted the input and at "
         "least two reads were written to requested outputs; distinct = distinct (reads, list, options)")
 MANIFEST = dict(
@@ -29,7 +39,11 @@ MANIFEST = dict(
          "output receives exactly, once and in input order, the reads the option table prescribes; all outputs requested => "
          "partition; histogram column = reads written (without --add-untagged) with one row per length. Tied to the working "
          "tree by running the real CLI on generated FASTQ/BAM x list x option cases, reading all outputs back independently, "
-         "comparing with the model and evaluating the three predicates with a Python oracle",
+         "comparing with the model and evaluating the three predicates with a Python oracle. Deepened: the model starts at the "
+         "text of the list file and the output options (strip/split/universal newlines, header test, validate), covers read "
+         "length extraction, input format decision and the histogram file; end-to-end theorem from list text to outputs, "
+         "largest-block selection and histogram column sums proved; list functions, iterators and format decision also compared "
+         "in-process",
     design_ref="DESIGN.md §5 C14",
     note="trusted: Lean kernel, axioms ⊆ {propext, Classical.choice, Quot.sound}; hand-written model; pysam/htslib/xopen I/O "
          "and file-format detection are outside the model; a read is identified by its input index, 'unmodified' is judged on "
@@ -60,10 +74,29 @@ def model_request(case, lens):
             "reads": [[r["name"], L] for r, L in zip(case["reads"], lens)]}
 
 
+def run_request(case, lens):
+    return {"op": "c14.run", "args": G.out_args(case), "add": case["add"], "discard": case["discard"],
+            "largest": case["largest"], "text": G.list_text(case),
+            "reads": [[r["name"], L] for r, L in zip(case["reads"], lens)]}
+
+
+def data_rows(case):
+    """the data rows of the list as the oracle reads them (lines split at \\n, \\r\\n, \\r; a first line starting with
+    '#' is the header; columns = tab-separated fields of the line without surrounding white space)"""
+    if case.get("text") is None:
+        return case["rows"]
+    lines = re.split(r"\r\n|\r|\n", case["text"])
+    if lines and lines[-1] == "":
+        lines.pop()
+    if lines and lines[0].startswith("#"):
+        lines = lines[1:]
+    return [l.strip().split("\t") for l in lines]
+
+
 def admissible_tables(case):
     """independent reading of the list per the property text: yields dict name -> haplotype (tagged only) for every
     admissible choice of largest blocks (several only on ties)"""
-    entries = case["rows"]
+    entries = data_rows(case)
     hap = {}
     for row in entries:
         if row[1] != "none":
@@ -103,9 +136,12 @@ def prescribed(case, table, listed, name):
 def parse_hist(path):
     if not os.path.exists(path):
         return None, None
-    lines = open(path).read().split("\n")
+    lines = open(path, encoding="utf-8", errors="replace").read().split("\n")
     header = lines[0].split("\t")
-    rows = [[int(x) for x in l.split("\t")] for l in lines[1:] if l]
+    try:
+        rows = [[int(x) for x in l.split("\t")] for l in lines[1:] if l]
+    except ValueError:                   # e.g. a pre-existing file the run did not replace
+        return ["<not a histogram>"], []
     return header, rows
 
 
@@ -135,26 +171,179 @@ def _run(ctx, wd):
         inp = G.read_records(rp, "bam" if case["fmt"] == "bam" else "fastq")
         args, paths, hist = G.cli_args(case, d, rp, lp)
         rc, out, err, _ = sim.whatshap(args, ctx.overlay)
+        if rc != 0:                      # nothing to read back (pre-existing files may still be there)
+            paths, hist = {}, os.path.join(d, "no-such-file")
         res = {"rc": rc, "err": err, "input": inp,
                "outputs": {k: G.read_records(p, "bam" if case["fmt"] == "bam" else "fastq") for k, p in paths.items()},
-               "hist": parse_hist(hist)}
+               "hist": parse_hist(hist), "hist_text": open(hist, encoding="utf-8", errors="replace").read() if os.path.exists(hist) else None,
+               "iter_lens": iterator_lengths(rp, case["fmt"])}
         shutil.rmtree(d, ignore_errors=True)
         return res
 
     with concurrent.futures.ThreadPoolExecutor(WORKERS) as pool:
         results = list(pool.map(execute, enumerate(cases)))
 
-    reqs = [model_request(c, [L for _, L in r["input"]]) for c, r in zip(cases, results)]
-    answers = []
-    for i in range(0, len(reqs), 20):
-        answers += ctx.model.ask_many(reqs[i:i + 20])
+    def ask(reqs):
+        out = []
+        for i in range(0, len(reqs), 20):
+            out += ctx.model.ask_many(reqs[i:i + 20])
+        return out
+    runs = ask([run_request(c, [L for _, L in r["input"]]) for c, r in zip(cases, results)])
+    plain = [i for i, c in enumerate(cases) if c.get("text") is None and not c.get("args")]
+    olds = dict(zip(plain, ask([model_request(cases[i], [L for _, L in results[i]["input"]]) for i in plain])))
+    # read lengths: `_bam_iterator` / `_fastq_string_iterator` (in-process) = model = the harness' own measure
+    bam = [i for i, c in enumerate(cases) if c["fmt"] == "bam"]
+    blens = dict(zip(bam, ask([{"op": "c14.bamlen", "recs": [[len(r["seq"]) if r["seq"] else 0,
+                                                                 (r.get("cigar") or [[0, r["cigar_len"]]]) if r["mapped"] else []]
+                                                                for r in cases[i]["reads"]]} for i in bam])))
 
-    for case, res, model in zip(cases, results, answers):
+    for idx, (case, res, run) in enumerate(zip(cases, results, runs)):
         ctx.evaluated()
         n0 = len(ctx.fails)
-        judge(ctx, case, res, model)
+        mine = [L for _, L in res["input"]]
+        if res["iter_lens"] != mine:
+            ctx.fail(f"read lengths seen by split's iterator {res['iter_lens'][:8]} differ from the records' lengths {mine[:8]}",
+                     case, key="iterator-length")
+        if idx in blens and blens[idx] != res["iter_lens"]:
+            ctx.disagree("c14.bamlen", case, res["iter_lens"], blens[idx])
+        judge(ctx, case, res, merge_models(ctx, case, run, olds.get(idx)))
         for _, _, key in ctx.fails[n0:]:
             ctx.dist("finding", key)
+    if not ctx.replay:
+        list_level(ctx, cases, wd)
+        detect_level(ctx, wd)
+
+
+def iterator_lengths(rp, fmt):
+    """lengths as `run_split`'s input iterators report them (real code, in-process)"""
+    import pysam
+    import whatshap.cli.split as S
+    if fmt == "bam":
+        with pysam.AlignmentFile(rp, "rb", check_sq=False) as f:
+            return [L for _, L, _ in S._bam_iterator(f)]
+    with pysam.FastxFile(rp) as f:
+        return [L for _, L, _ in S._fastq_string_iterator(f)]
+
+
+def merge_models(ctx, case, run, old):
+    """`fix` = the text-level model (`runSplit`); `cur` = the faithful model of the pre-fix code (only for lists given as rows).
+    For such lists both levels must agree (what `list_text_roundtrip` proves)."""
+    if "error" in run:
+        return run
+    if "argerr" in run:
+        return {"fix": run, "cur": {}, "run": run}
+    fix = {"err": run["err"]} if "err" in run else {"written": run["written"], "hist": run["hist"]}
+    m = {"fix": fix, "cur": {}, "run": run, "prescribed": None}
+    if old is not None and "error" not in old:
+        if old["fix"] != fix:
+            ctx.disagree("c14.text-vs-rows", case, fix, old["fix"])
+        m["cur"] = old["cur"]; m["prescribed"] = old.get("prescribed")
+    return m
+
+
+def real_list(path, ploidy, discard, largest):
+    """the real list functions in-process, with the two checks `run_split` makes around them"""
+    import whatshap.cli.split as S
+    try:
+        with contextlib.ExitStack() as st:
+            hl, has_chrom, parser = S.check_haplotag_list_information(path, st)
+            if largest and not has_chrom:
+                raise ValueError("no chromosome information")
+            table, known = S.process_haplotag_list_file(hl, parser, largest, discard, ploidy)
+            if discard:
+                assert len(known) > 0, "No known reads"
+            return {"four": parser is S._four_column_parser, "hap": sorted([k, v] for k, v in dict(table).items() if v),
+                    "known": sorted(known)}
+    except (ValueError, IndexError, KeyError, AssertionError) as e:
+        return {"err": type(e).__name__}
+
+
+def list_level(ctx, cases, wd):
+    """many more list texts through the real parser/table functions in-process"""
+    import logging
+    logging.disable(logging.CRITICAL)            # the real functions log every rejected haplotype name
+    try:
+        _list_level(ctx, cases, wd)
+    finally:
+        logging.disable(logging.NOTSET)
+
+
+def _list_level(ctx, cases, wd):
+    rng = ctx.rng
+    jobs = []
+    n = (400 if ctx.quick else 4000) * ctx.scale
+    for i in range(n):
+        c = G.gen_case(rng, combo=rng.randrange(16))
+        if rng.random() < 0.7:
+            c["text"], c["quirk"] = G.perturb_text(rng, c)
+        jobs.append(c)
+    jobs += [c for c in cases if not c.get("args")]
+    reqs, reals = [], []
+    d = os.path.join(wd, "lists"); os.makedirs(d, exist_ok=True)
+    for i, c in enumerate(jobs):
+        lp = os.path.join(d, f"l{i}.tsv" + (".gz" if c.get("list_gz") else ""))
+        with (gzip.open(lp, "wb") if c.get("list_gz") else open(lp, "wb")) as f:
+            f.write(G.list_text(c).encode("utf-8"))
+        reals.append(real_list(lp, c["ploidy"], c["discard"], c["largest"]))
+        os.remove(lp)
+        reqs.append({"op": "c14.list", "ploidy": c["ploidy"], "discard": c["discard"], "largest": c["largest"],
+                     "text": G.list_text(c)})
+    answers = []
+    for i in range(0, len(reqs), 50):
+        answers += ctx.model.ask_many(reqs[i:i + 50])
+    for c, real, model in zip(jobs, reals, answers):
+        ctx.dist("list_quirk", c.get("quirk", "-"))
+        if "err" in model:
+            model = {"err": model["err"].split(":")[0]}
+        ctx.dist("list_outcome", real.get("err", "ok"))
+        if real != model:
+            ctx.disagree("c14.list", {"text": G.list_text(c), "ploidy": c["ploidy"], "discard": c["discard"],
+                                      "largest": c["largest"], "gz": bool(c.get("list_gz"))}, real, model)
+
+
+DETECT = [  # (magic class, content factory, file names)
+    ("other", lambda: b"@r\nACGT\n+\nIIII\n", ["r.fastq", "r.fq", "r.txt", "r.fastq.gzip", "r.fq.gzip", "r.fastq.gzipfq", "r.bam"]),
+    ("other", lambda: gzip.compress(b"@r\nACGT\n+\nIIII\n"), ["r.fastq.gz", "r.fq.gz", "r.fastq", "r.gz", "x.fq.gzfq.gzip"]),
+    ("other", lambda: b"@HD\tVN:1.6\nr\t4\t*\t0\t0\t*\t*\t0\t0\tACGT\tIIII\n", ["r.sam", "r.fastq"]),
+    ("other", lambda: b"", ["empty.fastq", "empty.bam"]),
+    ("cram", lambda: b"CRAM\x03\x00" + b"\0" * 40, ["r.cram", "r.fastq"]),
+    ("vcf", lambda: b"##fileformat=VCFv4.2\n#CHROM\tPOS\n", ["r.vcf", "r.fastq"]),
+    ("gzvcf", lambda: gzip.compress(b"##fileformat=VCFv4.2\n#CHROM\tPOS\n"), ["r.vcf.gz", "r.fastq.gz"]),
+    ("bam", None, ["r.bam", "r.fastq", "r.fastq.gz", "r"]),
+]
+
+
+def detect_level(ctx, wd):
+    """`initialize_io_files`: which reader a reads file gets, by content and by name"""
+    import pysam
+    import whatshap.cli.split as S
+    d = os.path.join(wd, "detect"); os.makedirs(d, exist_ok=True)
+    reqs, reals, what = [], [], []
+    for magic, content, names in DETECT:
+        for nm in names:
+            path = os.path.join(d, nm)
+            if content is None:
+                with pysam.AlignmentFile(path, "wb", header={"HD": {"VN": "1.6"}, "SQ": [{"SN": "chr1", "LN": 100}]}):
+                    pass
+            else:
+                open(path, "wb").write(content())
+            try:
+                with contextlib.ExitStack() as st:
+                    _, it, _ = S.initialize_io_files(path, [None, None, None], st)
+                    real = {"_bam_iterator": "BAM", "_fastq_string_iterator": "FASTQ"}[it.__name__]
+            except ValueError:
+                real = "ValueError"
+            os.remove(path)
+            reals.append(real); what.append((magic, nm))
+            reqs.append({"op": "c14.detect", "magic": magic, "path": path})
+    for (magic, nm), real, model in zip(what, reals, ctx.model.ask_many(reqs)):
+        ctx.dist("detect", f"{magic}:{nm.split('.', 1)[-1]}->{real}")
+        intended = magic == "other" and nm.endswith(("fq", "fq.gz", "fastq.gzip", "fq.gzip"))
+        if real != model and intended and real == "FASTQ":
+            ctx.observe(f"{nm}: accepted as FASTQ (the extension list of initialize_io_files lacks two commas in the modelled "
+                        "code; accepting these names is the evident intention)")
+        elif real != model:
+            ctx.disagree("c14.detect", {"magic": magic, "name": nm}, real, model)
 
 
 def judge(ctx, case, res, model):
@@ -165,12 +354,34 @@ def judge(ctx, case, res, model):
     ctx.dist("reads", min(n, 40) // 5 * 5)
     names = [r["name"] for r in case["reads"]]
     dup_reads = len(set(names)) < len(names)
-    dup_list = len({r[0] for r in case["rows"]}) < len(case["rows"])
-    ctx.dist("dup_read_names", dup_reads); ctx.dist("list_cols", len(case["rows"][0]) if case["rows"] else 0)
+    ctx.dist("quirk", case.get("quirk", "-")); ctx.dist("list_gz", bool(case.get("list_gz")))
+    ctx.dist("preexisting_outputs", bool(case.get("pre")))
+    if case["fmt"] == "bam":
+        ctx.dist("bam_flags", sum(1 for r in case["reads"] if r.get("flag")) > 0)
+        ctx.dist("bam_cigar_ops", "".join(sorted({"MIDNSHP=X"[op] for r in case["reads"] for op, _ in (r.get("cigar") or [])})) or "-")
     if "error" in model:
         ctx.disagree("c14.split", case, "input not accepted by the driver", model)
         return
     fix, cur = model["fix"], model["cur"]
+    # ---- anomalous output options: `validate` (exit status 2) / `len(None)`
+    if "argerr" in fix:
+        ctx.dist("outcome", "args-" + fix["argerr"])
+        if fix["argerr"] == "usage":
+            if res["rc"] != 2 or "error:" not in res["err"]:
+                ctx.disagree("c14.run.args", case, {"rc": res["rc"], "stderr": res["err"][-200:]}, fix)
+        elif res["rc"] == 0 or err_class(res["err"]) != fix["argerr"]:
+            ctx.disagree("c14.run.args", case, {"rc": res["rc"], "raised": err_class(res["err"])}, fix)
+        return
+    if case.get("args"):
+        ctx.disagree("c14.run.args", case, {"rc": res["rc"]}, "model accepts the output options")
+        return
+    rows_data = data_rows(case) if "err" not in fix else []
+    dup_list = len({r[0] for r in rows_data}) < len(rows_data)
+    ctx.dist("dup_read_names", dup_reads); ctx.dist("list_cols", len(rows_data[0]) if rows_data else 0)
+    run = model.get("run") or {}
+    if "ploidy" in run and (run["ploidy"] != case["ploidy"] or run["requested"] != case["requested"][:case["ploidy"] + 1]):
+        ctx.disagree("c14.run.outputs", case, {"ploidy": case["ploidy"], "requested": case["requested"]},
+                     {"ploidy": run["ploidy"], "requested": run["requested"]})
     # ---- rejected inputs
     if "err" in fix:
         want = fix["err"].split(":")[0]
@@ -210,7 +421,7 @@ def judge(ctx, case, res, model):
                      {"fix": fix["written"], "cur": cur.get("written")})
 
     # ---- oracle 1: routed_exactly (independent reading of the list)
-    listed = {r[0] for r in case["rows"]}
+    listed = {r[0] for r in rows_data}
     if dup_list:
         ctx.dist("oracle", "skipped-duplicate-list-names")
     else:
@@ -279,6 +490,20 @@ def judge(ctx, case, res, model):
             pass                                    # HEAD's known behaviour, reported above as F7c / F7a
         else:
             ctx.disagree("c14.split.hist", case, rows, {"fix": fix["hist"], "cur": cur.get("hist")})
+    # the histogram file byte for byte, and its column sums against the records in the outputs
+    if "histText" in run:
+        if res["hist_text"] != run["histText"]:
+            ctx.disagree("c14.run.histText", case, res["hist_text"], run["histText"])
+        for k in req_sinks:
+            if (not case["add"] or k == 0) and k < len(run["colSums"]) and run["colSums"][k] != len(outs[k]) and rows == fix["hist"]:
+                ctx.fail(f"histogram: column {k} sums to {run['colSums'][k]} but the output holds {len(outs[k])} reads", case,
+                         key="histogram-column-sum")
+    # the option table read off the list lines (Lean `prescribedByList`, proved = the table's) against the oracle's
+    if run.get("byList") is not None and not dup_list:
+        tabs = list(admissible_tables(case))
+        mines = [[sorted(prescribed(case, tab, listed, nm)) for nm in names] for tab in tabs]
+        if run["byList"] not in mines:
+            ctx.disagree("c14.prescribedByList", case, mines[0], run["byList"])
     if model.get("prescribed") is not None and not dup_list and not case["largest"]:
         # the Lean option table agrees with the oracle's reading of the property text
         tab = next(admissible_tables(case))
@@ -287,5 +512,5 @@ def judge(ctx, case, res, model):
             ctx.disagree("c14.prescribed", case, mine, model["prescribed"])
     ctx.validated()
     if len(ctx.samples) < 3 and 2 <= n <= 5 and n_written:
-        ctx.sample({"options": opts, "requested": case["requested"], "list": case["rows"], "reads": names,
+        ctx.sample({"options": opts, "requested": case["requested"], "list": rows_data, "reads": names,
                     "written_names": {k: [t.split("\n")[0].split("\t")[0] for t in actual[k]] for k in req_sinks}, "histogram": rows})
